@@ -247,6 +247,10 @@ func TypesEqual(a, b Type) bool {
 
 	a = GetUnderlyingType(a)
 	b = GetUnderlyingType(b)
+	if a == nil || b == nil {
+		// e.g. the union [null], whose underlying type is null
+		return a == nil && b == nil
+	}
 
 	switch ta := a.(type) {
 	case *SimpleType:
